@@ -3,6 +3,7 @@ package world
 import (
 	"fmt"
 	"os"
+	"reflect"
 	"regexp"
 	"sort"
 	"strconv"
@@ -794,7 +795,7 @@ func (w *W) opMerge() string {
 	desc := ""
 	srcKind := 0
 	if w.F.CfgSources {
-		srcKind = t.Weighted([]int{2, 3, 2, 2, 1, 1}, "merge-src-kind")
+		srcKind = t.Weighted([]int{2, 3, 2, 2, 1, 1, 1}, "merge-src-kind")
 		if srcKind >= 4 && t.Bool("into-empty-destination") {
 			// a fresh, empty destination
 			dst = w.addHandle(ucfg.New(), &model.Node{K: model.KSub})
@@ -894,6 +895,41 @@ func (w *W) opMerge() string {
 			srcVal = []interface{}{srcH.C}
 			desc = fmt.Sprintf("[h%d]", srcH.ID)
 			embed = "slice"
+		case 6:
+			// a struct that inlines the config and has a sibling field, declared after it, adding a
+			// setting to one of the config's own dictionaries (or a new dictionary)
+			srcTree = srcH.M.Copy()
+			srcVal = srcH.C
+			desc = fmt.Sprintf("h%d", srcH.ID)
+			if srcTree.PureDict() {
+				var ks []string
+				for _, k := range srcTree.Keys() {
+					if c := srcTree.D[k]; c.PureDict() && c.D["zy"] == nil {
+						ks = append(ks, k)
+					}
+				}
+				k := "zk"
+				if len(ks) > 0 {
+					k = ks[t.Choose(len(ks), "inline-sibling-key")]
+					w.R.Probe("merge: struct source inlining a config, a later field adds to one of its dictionaries")
+				}
+				if _, taken := srcTree.D[k]; k != "zk" || !taken {
+					if srcTree.D[k] == nil {
+						srcTree.SetD(k, model.Dict())
+					}
+					srcTree.D[k].SetD("zy", model.Int(2))
+					ty := reflect.StructOf([]reflect.StructField{
+						{Name: "Base", Type: reflect.TypeOf((*ucfg.Config)(nil)), Tag: `config:",inline"`},
+						{Name: "Extra", Type: reflect.TypeOf(map[string]interface{}{}), Tag: reflect.StructTag(`config:"` + k + `"`)},
+					})
+					v := reflect.New(ty).Elem()
+					v.Field(0).Set(reflect.ValueOf(srcH.C))
+					v.Field(1).Set(reflect.ValueOf(map[string]interface{}{"zy": uint64(2)}))
+					srcVal = v.Interface()
+					desc = fmt.Sprintf("struct{h%d inline; %s: {zy: 2}}", srcH.ID, k)
+					embed = "inline-struct"
+				}
+			}
 		}
 		if srcH == dst {
 			w.R.Probe("merge: source and destination alias (self-merge)")
